@@ -548,9 +548,22 @@ def installed(sim: Sim13) -> Iterator[None]:
     o_request = fakeapi.FakeSession.request
     extra = {k: float(v) for k, v in (sim.sc.get("patch_latency") or {}).items()}
 
+    after = {k: float(v) for k, v in (sim.sc.get("response_latency") or {}).items()}
+
     async def request(self: Any, method: str, url: str, *a: Any, **k: Any) -> Any:
-        if extra and method.upper() == "PATCH" and "/clusterkopfpeerings" in url:
-            d = extra.get(self.identity.split("#")[0].split("-r")[0], 0.0)
+        name = self.identity.split("#")[0].split("-r")[0]
+        if method.upper() == "PATCH" and "/clusterkopfpeerings" in url:
+            if after.get(name) and not self.dead:
+                # the server applies the PATCH at once, the RESPONSE takes the time: a client cancelled meanwhile has written
+                c = self.cluster
+                saved, c.latency = c.latency, 0
+                try:
+                    resp = await o_request(self, method, url, *a, **k)
+                finally:
+                    c.latency = saved
+                await asyncio.sleep(after[name])
+                return resp
+            d = extra.get(name, 0.0)
             if d:
                 await asyncio.sleep(d)
         return await o_request(self, method, url, *a, **k)
@@ -816,6 +829,8 @@ def run_ka(batch: dict, wall_limit: float = 60.0) -> dict:
 
                 async def touch(**kw: Any) -> None:
                     calls.append(kw.get("lifetime"))
+                    if how == "cancel_in_first_touch" and len(calls) == 1:
+                        raise asyncio.CancelledError()      # the stop arrives while the first PATCH is in flight
 
                 def randint(a: int, b: int) -> int:
                     bounds.append([a, b])
